@@ -6,6 +6,7 @@ import Hive.Proofs.DerivedLocks
 import Hive.Proofs.DerivedVar
 import Hive.Proofs.DerivedAsync
 import Hive.Proofs.DerivedEvict
+import Hive.Proofs.DerivedSortedWin
 import Hive.Spec.Derived
 import Hive.Gen.C14_Skel
 /-!
@@ -295,6 +296,33 @@ theorem C14_sorted_set_concurrent (less : Bool) (s : SSA) (hr : SSAReach (SSA.in
   ⟨(SSA.inv_reach _ _ (SSA.inv_init less) hr).good,
    fun hq => SSA.weights_current s (SSA.inv_reach _ _ (SSA.inv_init less) hr) hq⟩
 
+/-! ## The `addSorted` window (micro-step model `Win.winSys`) -/
+
+/-- Witness about `addSorted` as it was (the weight callback recognised its initial invocation by the
+not yet assigned unsubscribe function): `Add(3)`, `weight(3).Set(9)` and `weight(1).Set(1)` on the set
+`{1 ↦ 9, 2 ↦ 5}` with `weight(3) = 5`, under the schedule of `harness/c14/window.go` — the callback of
+3 runs without `sortedSet.mutex` while the adder still holds it, is overtaken in the middle of its move
+by the locked update of 1, and exchanges two entries that are no longer neighbours.  Every call returns
+and the slice is `[3, 1, 2]` with weights 9, 1, 5: not sorted by current weight.  The same schedule was
+forced on the implementation (hook c63db7b + a parking `Less`) and gave `Descending() = [3 1 2]`. -/
+theorem C14_sorted_set_add_window_witness :
+    let c := runSched (Win.winSys false) (Win.winInit, Win.winThreads) Win.winSched
+    c.2 = [.fin, .fin, .fin] ∧ c.1.d.slice = [3, 1, 2] ∧ c.1.d.w 3 = 9 ∧ c.1.d.w 1 = 1 ∧ c.1.d.w 2 = 5 ∧
+      c.1.d.sorted = false ∧ c.1.mutex = false ∧ c.1.exec = false :=
+  Win.win_old_witness
+
+/-- Repaired code (251ae41): for every pool of goroutines adding the element, updating its weight and
+making locked updates of other members, under every schedule, the part of the weight callback that
+touches the slice runs with `sortedSet.mutex` held and at most one goroutine is inside a mutex section
+— the atomicity that `C14_sorted_set_concurrent` assumes for weight callbacks. -/
+theorem C14_sorted_set_callback_locked (s : Win.SW) (ts : List Win.WT) (hm : s.mutex = false) (hr : s.registered = false)
+    (hs : ∀ t ∈ ts, t.isStart = true) (c : Cfg Win.SW Win.WT) (hreach : Reach (Win.winSys true) (s, ts) c) :
+    (∀ t ∈ c.2, ∀ l, Win.updLocked t = some l → l = true) ∧ c.2.countP Win.holdsMutex ≤ 1 :=
+  Win.win_fixed_locked s ts hm hr hs c hreach
+
+example : let c := runSched (Win.winSys true) (Win.winInit, Win.winThreads) Win.winSchedFixed
+    c.2 = [.fin, .fin, .fin] ∧ c.1.d.slice = [3, 2, 1] ∧ c.1.d.sorted = true := Win.win_fixed_example
+
 /-! ## EvictionState under concurrency (protocol model `evSys`) -/
 
 /-- **EvictionState under every interleaving**: any number of goroutines with arbitrary scripts of
@@ -363,12 +391,6 @@ against: where a lock is taken and released, which callbacks are invoked under w
 WaitGroup touches its atomic counter.  A change of that structure breaks these obligations. -/
 section Skeletons
 open Hive.Gen.C14Skel
-
-/-- sortedSet.addSorted (sorted_set_impl.go:100) -/
-theorem C14_skeleton_sortedSet_addSorted : skel_sortedSet_addSorted = [
-  "lock s.mutex", "defer unlock s.mutex", "func{", "return", "}func", "if{", "func{", "if{",
-  "lock s.mutex", "defer unlock s.mutex", "call s.elements.Get", "if{", "return", "}if", "}if",
-  "call s.updatePosition", "}func", "call s.weightVariable(element).OnUpdate", "}if"] := by decide
 
 /-- sortedSet.deleteSorted (sorted_set_impl.go:128) -/
 theorem C14_skeleton_sortedSet_deleteSorted : skel_sortedSet_deleteSorted = [
@@ -512,6 +534,13 @@ theorem C14_skeleton_readableSet_SubtractReactive : skel_readableSet_SubtractRea
 theorem C14_skeleton_derivedSet_InheritFrom : skel_derivedSet_InheritFrom = [
   "for{", "func{", "call sourceElements.Apply", "helper inheritMutations", "}func",
   "call source.OnUpdate", "func{", "helper inheritMutations", "}func", "}for", "return"] := by decide
+
+
+/-- sortedSet.addSorted (sorted_set_impl.go:100) -/
+theorem C14_skeleton_sortedSet_addSorted : skel_sortedSet_addSorted = [
+  "lock s.mutex", "defer unlock s.mutex", "func{", "return", "}func", "if{", "func{", "if{", "}else{",
+  "lock s.mutex", "defer unlock s.mutex", "call s.elements.Get", "if{", "return", "}if", "}if",
+  "call s.updatePosition", "}func", "call s.weightVariable(element).OnUpdate", "}if"] := by decide
 
 
 end Skeletons
